@@ -55,6 +55,7 @@ type Prog struct {
 	mu              sync.Mutex
 	srcLines        map[string][]string
 	inlineOK        map[*ssa.Function]bool
+	externResult    map[string]types.Type
 	InitOnly        map[string]bool
 	AppendOnly      map[string]bool
 }
